@@ -71,7 +71,7 @@ def configs(n, cls, tier):
         out.append(({'depth': 5}, 'value'))
         out.append(({'calls': 10 ** 9}, 'count'))
         out.append(({'depth': 4, 'recursion': max(n, 1) + 1}, 'value'))
-        for L in sorted(set([n - 1, n, n + 1, 1, 2])):
+        for L in (sorted(set([n - 1, n, n + 1, 1, 2])) if tier == 'quick' else sorted(set(list(range(1, min(n + 3, 60))) + [n - 1, n, n + 1]))):
             if L >= 1:
                 out.append(({'recursion': L}, 'MaximumRecursion' if n > L else 'value'))
     elif cls == 'nontail':
@@ -85,8 +85,8 @@ def configs(n, cls, tier):
 
 def ns(cls, tier):
     if cls == 'tail':
-        return [0, 1, 2, 3, 7, 50] + ([1000, 100000] if tier != 'quick' else [1000])
-    return [0, 1, 2, 3, 7, 50] + ([400] if tier != 'quick' else [])
+        return ([0, 1, 2, 3, 7, 50] + [1000]) if tier == 'quick' else [0, 1, 2, 3, 4, 5, 7, 16, 50, 1000, 100000, 1000000]
+    return [0, 1, 2, 3, 7, 50] if tier == 'quick' else [0, 1, 2, 3, 4, 5, 7, 16, 50, 200, 400]
 
 
 def _run(args):
@@ -117,6 +117,8 @@ def run(tier):
     counts = {}
     for tname, cls, decl, val in TEMPLATES:
         for n in ns(cls, tier):
+            if tname == 'to_str' and n > 100000:
+                continue      # the accumulator is a string: quadratic copying, nothing to do with the call mechanism
             for limits, exp in configs(n, cls, tier):
                 key = tuple(sorted(limits.items()))
                 groups.setdefault(key, []).append((tname, cls, decl, val, n, exp))
